@@ -160,7 +160,13 @@ def make_capture_harness(prog, depth):
     return harness
 
 
-def make_clear_then_restore_harness(prog, saved_len):
+def ev1_code(f, fail):
+    if not fail: return [f.op('MovImmediate'), f.fixnum(1), f.vc('Acc'), f.op('Halt')]
+    # (5): a call of a number -> run-time error, error arm of run_count
+    return [f.op('PushImmediate'), f.vc('ArgumentCount', 0), f.op('MovImmediate'), f.fixnum(5), f.vc('Acc'), f.op('CallAcc'), f.op('Halt')]
+
+
+def make_clear_then_restore_harness(prog, saved_len, fail=False):
     """(4): an evaluation completes (HALT -> Stack::clear) on a grown stack, then a stored continuation with a LONG saved stack
     is invoked from a later evaluation"""
     fab = Fab(prog)
@@ -168,20 +174,20 @@ def make_clear_then_restore_harness(prog, saved_len):
 
     def harness(it):
         f = fab
-        it.ghost['shape'] = ('clear-restore', saved_len)
+        it.ghost['shape'] = ('fail-restore' if fail else 'clear-restore', saved_len)
         v = z3.BitVec('v', 64)
         saved = [f.vc('Undefined')] + [f.fixnum(z3.BitVec('s%d' % i, 64)) for i in range(3)] + [f.vc('Undefined')] * (saved_len - 4)
         # continuation returns into lambda 1 at its HALT with the value in acc
         cont = f.vcont(saved, saved_len - 1, USIZE_MAX, (1, 0), 0)
         l0 = f.vlambda([f.op('Halt')])
-        ev1 = f.vlambda([f.op('MovImmediate'), f.fixnum(1), f.vc('Acc'), f.op('Halt')])
+        ev1 = f.vlambda(ev1_code(f, fail))
         ev2 = f.vlambda([f.op('PushImmediate'), f.fixnum(v), f.op('PushImmediate'), f.vc('ArgumentCount', 1), f.op('MovImmediate'), f.ptr(0), f.vc('Acc'), f.op('CallAcc'), f.op('Halt')])
         heap = f.heap([cont, l0, ev1, ev2], 8)
         stack_len = 512 if saved_len > 256 else 256
         vm = f.vm(heap, f.stack([f.vc('Undefined')] * stack_len, 0), ip=(2, 0))
         vb = Cell(vm)
         r1 = vmstep.result_cell(it, it.call(RUN_COUNT, [Ref(vb), USIZE_MAX]))
-        if r1[0] != 'value': return viol(it, 'first evaluation did not complete', 'harness')
+        if r1[0] != ('err' if fail else 'value'): return viol(it, 'first evaluation did not %s' % ('fail' if fail else 'complete'), 'harness')
         f.set_field(vb.v, 'Vm', 'ip', Agg('tuple', None, [3, 0]))
         r2 = vmstep.result_cell(it, it.call(RUN_COUNT, [Ref(vb), USIZE_MAX]))
         if r2[0] != 'value': return viol(it, 'invoking the stored continuation from a later evaluation ends with %r' % (r2,), 'later-invoke')
@@ -213,7 +219,8 @@ def native_verdict(prog, replay, req):
     fab = Fab(prog)
     class NativeIt(Interp):
         pass
-    if sh[0] == 'clear-restore':
+    if sh[0] in ('clear-restore', 'fail-restore'):
+        fail = sh[0] == 'fail-restore'
         saved_len = sh[1]
         f = fab
         vals = req['vars']
@@ -221,16 +228,27 @@ def native_verdict(prog, replay, req):
         saved = [f.vc('Undefined')] + [f.fixnum(g('s%d' % i)) for i in range(3)] + [f.vc('Undefined')] * (saved_len - 4)
         cont = f.vcont(saved, saved_len - 1, USIZE_MAX, (1, 0), 0)
         l0 = f.vlambda([f.op('Halt')])
-        ev1 = f.vlambda([f.op('MovImmediate'), f.fixnum(1), f.vc('Acc'), f.op('Halt')])
+        ev1 = f.vlambda(ev1_code(f, fail))
         ev2 = f.vlambda([f.op('PushImmediate'), f.fixnum(g('v')), f.op('PushImmediate'), f.vc('ArgumentCount', 1), f.op('MovImmediate'), f.ptr(0), f.vc('Acc'), f.op('CallAcc'), f.op('Halt')])
         heap = f.heap([cont, l0, ev1, ev2], 8)
         vm = f.vm(heap, f.stack([f.vc('Undefined')] * (512 if saved_len > 256 else 256), 0), ip=(2, 0))
         out = replay.ask('script %s run:0 setip:3:0 run:0' % hexs(vmfab.show_vm(f, vm)))
-        if out.startswith(('PANIC', 'ABORT')): return True, 'invoking a stored continuation (saved stack of %d slots) after a completed evaluation: %s' % (saved_len, out)
+        if out.startswith(('PANIC', 'ABORT')): return True, 'invoking a stored continuation (saved stack of %d slots) after a %s evaluation: %s' % (saved_len, 'failed' if fail else 'completed', out)
         second = out.split()[2].split('/')[0]
         v = g('v'); v = v - (1 << 64) if v >= 1 << 63 else v
         want = 'VALUE:' + ('I%d' % v).encode().hex()
         return second != want, 'later invocation of the stored continuation: %s, expected %s' % (second, want)
+    if sh[0] == 'capture':
+        # a capture that saves more than the stack below the call/cc operands is observable natively as RETENTION: cells referenced
+        # only from frames that had returned before the capture stay allocated while the continuation is reachable
+        setup = ("(define k #f) (define (fill n) (if (= n 0) '() (cons n (fill (- n 1))))) "
+                 "(define (deep n) (if (= n 0) 0 (let ((l (fill 100))) (+ (deep (- n 1)) (car l))))) "
+                 "(begin (deep 150) (call/cc (lambda (c) (set! k c))) 'captured)")
+        out = replay.ask('retention %s %s' % (hexs(setup), hexs('(set! k #f)')))
+        if out.startswith(('PANIC', 'ABORT')): return True, 'capture scenario panics natively: ' + out[:200]
+        if not out.startswith('OK '): return None, 'native capture scenario failed: ' + out[:200]
+        u1, u2 = [int(x) for x in out.split()[1:3]]
+        return (u1 - u2) > 1000, 'a continuation captured after 150 returned frames (100 fresh cells each) keeps %d cells allocated; dropping it releases %d cells it could never reach' % (u1, u1 - u2)
     return None, 'native reproduction of %s counterexamples is not implemented (symbolic result only)' % sh[0]
 
 
@@ -253,6 +271,8 @@ def run(chk, ws, prog, tier, replays):
     jobs.append(('restore/saved=300/current=2/grown-stack', make_restore_harness(prog, 300, 2, False, 1, grown=True)))
     jobs.append(('clear-then-restore/saved=4', make_clear_then_restore_harness(prog, 4)))
     jobs.append(('clear-then-restore/saved=300', make_clear_then_restore_harness(prog, 300)))
+    jobs.append(('fail-then-restore/saved=4', make_clear_then_restore_harness(prog, 4, fail=True)))
+    jobs.append(('fail-then-restore/saved=300', make_clear_then_restore_harness(prog, 300, fail=True)))
     seen = {}
     for name, h in jobs:
         res = explore(prog, h, opts={'on_panic': on_panic, 'render_fmt': False}, quiet=True)
